@@ -177,4 +177,6 @@ EXEMPT_MODE = {
 
 
 def mode_rules(repo, pid, modules):
-    return [rule_dtype_mod(repo, pid + '.DTMOD', modules, EXEMPT_DT), rule_mode(repo, pid + '.MODE', modules, EXEMPT_MODE)]
+    from .ipalias import rule_ipalias
+    return [rule_dtype_mod(repo, pid + '.DTMOD', modules, EXEMPT_DT), rule_mode(repo, pid + '.MODE', modules, EXEMPT_MODE),
+            rule_ipalias(repo, pid + '.IPA', modules)]
